@@ -341,9 +341,16 @@ class Oracle:
             if ev == "start":
                 stopped_final = False
                 pending_starts += 1
+            pf0 = dict(x.split("=") for x in prev_snap.split()) if prev_snap is not None else None
             for j, a in enumerate(acts):
                 if a == "attempt":
                     attempts += 1
+                    # "never while handshaking or connected": the manager's state only leaves READY through on_disconnect
+                    # (or stop()), and HANDSHAKING through the attempt's own outcome, both visible earlier in this op
+                    if pf0 is not None and pf0["st"] in ("READY", "HANDSHAKING") and not any(
+                            x.startswith(("on_disconnect", "on_connect_error", "on_connect")) for x in acts[:j]):
+                        self.problems.append(("c18:attempt-while-" + pf0["st"].lower(), i,
+                                              f"a connection attempt was started while the manager was {pf0['st']}: {acts}"))
                     if stopped_final:
                         self.problems.append(("c18:attempt-after-stop", i, "a connection attempt was started after stop() had returned"))
                 elif a == "on_connect":
@@ -436,6 +443,12 @@ def scenarios(rng, thorough):
         n = rng.randrange(4, 40)
         out.append((f"random{i}", ["start"] + [rng.choice(bag) for _ in range(n)], rng.random() < 0.9))
     return out
+
+
+def pre(ck: Check):
+    import translate
+
+    translate.run()  # Props/C18 ties the model's constants to the generated ones (cool-down, max tries, backoff literals)
 
 
 def run(ck: Check):
